@@ -58,7 +58,7 @@ def answer_pred(view, s):
     return pred
 
 
-def check_stop_region(view, bs, start, s, rule, what_prefix, seed_locals, seed_pred):
+def check_stop_region(view, bs, start, s, rule, what_prefix, seed_locals, seed_pred, known0=None):
     """From `start`, every feasible path must reach Return carrying the stopped error on, without
     examining anything: no loop, no child call, no iterator step, no new report, no user function.
     The walk is path-sensitive in two cheap ways: it tracks which enum variant a local is known to
@@ -68,7 +68,7 @@ def check_stop_region(view, bs, start, s, rule, what_prefix, seed_locals, seed_p
     loop_headers = set(h for h, _ in view.loops())
     seen_states = set()
     visited = set()
-    work = [(start, frozenset(), frozenset(seed_locals))]
+    work = [(start, frozenset((known0 or {}).items()), frozenset(seed_locals))]
     steps = 0
     reached_return = False
 
